@@ -222,6 +222,11 @@ def cli_scenarios(R, g, n):
         replace = "" if empty else gen.render(b2, "Snake")
         tree = g.tree(a, symlinks=False)
         tree.append({"p": "zz_" + search + ".txt", "k": "f", "c": (search + " café\n").encode(), "m": 0o644})
+        # a file that the plan both edits and moves (inside a renamed directory, and renamed itself): the stored plan copy
+        # must still describe the plan that was applied, so that redo after undo finds it again
+        tree.append({"p": "mv_" + search, "k": "d", "m": 0o755})
+        tree.append({"p": "mv_" + search + "/mod.txt", "k": "f", "c": ("use " + search + ";\nfn " + search + "_x() {}\n").encode(), "m": 0o644})
+        tree.append({"p": "mv_" + search + "/" + search + "_impl.txt", "k": "f", "c": ("impl " + search + "\n").encode(), "m": 0o644})
         with cli.Sandbox(tree) as s1, cli.Sandbox(tree) as s2:
             if empty:
                 # empty replacement: content only (an empty name component is not a valid rename)
@@ -249,9 +254,11 @@ def cli_scenarios(R, g, n):
                 if "missing field" in msg or "Failed to parse" in msg or "parse plan" in msg.lower():
                     fails.append({"scenario": "stored plan copy unreadable", "tree": cli.tree_json(tree),
                                   "search": search, "replace": replace, "rc": [rc1, rcu, rcr], "stderr": msg[-800:]})
-                elif rcu == 0 and rcr == 0 and s1.snapshot() != t1:
-                    fails.append({"scenario": "redo from the stored plan copy does not reproduce the direct apply", "tree": cli.tree_json(tree),
-                                  "search": search, "replace": replace, "rc": [rc1, rcu, rcr],
+                elif rcu == 0 and (rcr != 0 or s1.snapshot() != t1):
+                    fails.append({"scenario": "redo from the stored plan copy " + ("fails after a successful undo" if rcr != 0 else
+                                                                                  "does not reproduce the direct apply"),
+                                  "tree": cli.tree_json(tree), "search": search, "replace": replace, "rc": [rc1, rcu, rcr],
+                                  "stderr": er.decode("utf-8", "replace")[-500:],
                                   "diff": repr(cli.diff_snap(t1, s1.snapshot()))[:1200]})
     # `replace` with replacement texts that are blank, padded or look like JSON literals: direct == saved plan file == undo + redo
     for j, rep in enumerate([" ", "\t", "  ", " x ", "null", "0", "\u00a0"][: (4 if n < 10 else 7)]):
